@@ -81,7 +81,8 @@ theorem mkEnvW_cfi_arch {a : Arch} (ha : a ≠ .x86) (os : Os) (w : World) (wins
 /-! ### frames found by the frame pointer -/
 
 theorem fpFrame_is {a : Arch} {e : Exp} (ha : a = .amd64 ∨ a = .arm ∨ a = .arm64 ∨ a = .arm64old)
-    (hfp : e.fp.isSome = true) (hregs : e.regs.isEmpty = true) (hspm : e.sp ≤ a.regMax) (hretm : e.ret ≤ a.regMax) :
+    (hfp : e.fp.isSome = true) (hregs : e.regs.isEmpty = true) (hspm : e.sp ≤ a.regMax) (hretm : e.ret ≤ a.regMax)
+    (hfpm : ∀ v, e.fp = some v → v ≤ a.regMax) :
     FrameIsA a .fp e (fpFrame a e) := by
   obtain ⟨v, hv⟩ := Option.isSome_iff_exists.mp hfp
   have hr : e.regs = [] := by simpa using hregs
@@ -96,7 +97,7 @@ theorem fpFrame_is {a : Arch} {e : Exp} (ha : a = .amd64 ∨ a = .arm ∨ a = .a
   have hvsp : (fpFrame a e).ctx.has a a.spName = true := by
     rcases ha with rfl | rfl | rfl | rfl <;> simp [fpFrame, Ctx.has, Arch.aliases, Arch.spName]
   rcases ha with rfl | rfl | rfl | rfl <;>
-    exact ⟨rfl, rfl, rfl, rfl, rfl, hvip, hvsp, hfpf, hregs', hspm, hretm⟩
+    exact ⟨rfl, rfl, rfl, rfl, rfl, hvip, hvsp, hfpf, hregs', hspm, hretm, hfpm⟩
 
 /-- **one frame through a frame-pointer record** (x86-64 incl. the Windows probe, ARM on iOS, ARM64) -/
 theorem step_fp_arch {env : Env} {a : Arch} {w : World} {mem : Mem} {f : Frame} {g : Option Frame}
@@ -108,6 +109,16 @@ theorem step_fp_arch {env : Env} {a : Arch} {w : World} {mem : Mem} {f : Frame} 
   have hsome : e.fp.isSome = true := by
     simp only [linkFp, Bool.and_eq_true] at hl
     exact hl.1.1.1
+  have hfpm : ∀ v, e.fp = some v → v ≤ a.regMax := by
+    intro v hev
+    have hl' := hl
+    simp only [linkFp, hev, Option.getD_some, Bool.and_eq_true, beq_iff_eq] at hl'
+    cases a <;> simp only [Bool.and_eq_true, beq_iff_eq, Bool.false_eq_true, and_false] at hl'
+    · exact read_le_regMax (a := .x86) hl'.2.1.2
+    · exact read_le_regMax (a := .amd64) hl'.2.1.1.1.1.1.2
+    · exact read_le_regMax (a := .arm) hl'.2.1.1.2
+    · exact read_le_regMax (a := .arm64) hl'.2.1.1.1.1.1.2
+    · exact read_le_regMax (a := .arm64old) hl'.2.1.1.1.1.1.2
   rw [step_noCfiEnv hcfi]
   have hcfi' : ∀ f g, (noCfiEnv env).cfi f g = none := fun _ _ => rfl
   have harch' : (noCfiEnv env).arch = a := harch
@@ -115,16 +126,16 @@ theorem step_fp_arch {env : Env} {a : Arch} {w : World} {mem : Mem} {f : Frame} 
   · exact absurd rfl hx
   · -- amd64
     have hview := hv.fpView hx rfl hfp
-    refine ⟨fpFrame .amd64 e, ?_, fpFrame_is (by simp) hsome hregs hspm hretm⟩
+    refine ⟨fpFrame .amd64 e, ?_, fpFrame_is (by simp) hsome hregs hspm hretm hfpm⟩
     by_cases hos : env.os = .windows
     · exact step_fp_amd64_win (env := noCfiEnv env) harch' hos hcfi' hview hl
     · exact step_fp_amd64 (env := noCfiEnv env) harch' hos hcfi' hview hl
   · exact ⟨fpFrame .arm e, step_fp_arm (env := noCfiEnv env) harch' hcfi' (hv.fpView hx rfl hfp) hl,
-      fpFrame_is (by simp) hsome hregs hspm hretm⟩
+      fpFrame_is (by simp) hsome hregs hspm hretm hfpm⟩
   · exact ⟨fpFrame .arm64 e, step_fp_arm64 (env := noCfiEnv env) (Or.inl rfl) harch' hcfi' (hv.fpView hx rfl hfp) hl,
-      fpFrame_is (by simp) hsome hregs hspm hretm⟩
+      fpFrame_is (by simp) hsome hregs hspm hretm hfpm⟩
   · exact ⟨fpFrame .arm64old e, step_fp_arm64 (env := noCfiEnv env) (Or.inr rfl) harch' hcfi' (hv.fpView hx rfl hfp) hl,
-      fpFrame_is (by simp) hsome hregs hspm hretm⟩
+      fpFrame_is (by simp) hsome hregs hspm hretm hfpm⟩
   · simp [linkFp] at hl
   · simp [linkFp] at hl
 
@@ -178,7 +189,7 @@ theorem scanFrame_is {a : Arch} {e : Exp} {f : Frame} {V : List String} {R : Lis
   have hregs' : ∀ p ∈ e.regs, Ctx.has a ({ ip := e.ret, sp := e.sp, rest := R, valid := some V, m64 := (a == .mips64) } : Ctx) p.1 = true ∧
       Ctx.raw a ({ ip := e.ret, sp := e.sp, rest := R, valid := some V, m64 := (a == .mips64) } : Ctx) p.1 = p.2 ∧ p.2 ≤ a.regMax := by
     intro p hp; rw [hregs] at hp; cases hp
-  refine ⟨rfl, rfl, rfl, rfl, rfl, ?_, ?_, ?_, hregs', hspm, hretm⟩
+  refine ⟨rfl, rfl, rfl, rfl, rfl, ?_, ?_, ?_, hregs', hspm, hretm, by intro v hv; rw [hfp] at hv; cases hv⟩
   · rcases hV with rfl | ⟨rfl, rfl⟩
     · cases a <;> simp [Ctx.has, Arch.aliases, Arch.ipName, Arch.spName]
     · simp [Ctx.has, Arch.aliases, Arch.ipName]
